@@ -50,7 +50,7 @@ def run(ctx):
     # async == sync on deterministic behaviours: all eight entry points
     names = ["rp1", "rpH", "cbA", "fbR", "fbE", "bh1", "cK", "to", "hgR"]
     st = seq.all_stacks(names, 2 if ctx.tier == "quick" else 3)
-    mm = seq.run_family(ctx, binary, "entries", st, outs=seq.OUTS3, maxcalls=3, execs=1 if ctx.tier == "quick" else 2, entries=8)
+    mm = seq.run_family(ctx, binary, "entries", st, outs=seq.OUTS3 + [seq.out("R1", "E2")], maxcalls=3, execs=1 if ctx.tier == "quick" else 2, entries=8)
     seq.report(ctx, mm, lambda m: m["tag"] in ("calls", "ret", "verdict") and m["entry"] >= 1)
     return vlib.finish(ctx, rule="async executions through 5 compositions x cooperating-or-not x outcome, with two concurrent readers (IsDone poller, Done waiter + Result/Error) and ExecutionResult.Cancel at every unit "
                        "instant (held 0/1 units between its halves); traces validated by TLC incl. observer labels; C15 predicates on the trace; plus every sequential behaviour of depth<=2 stacks over 9 descriptors "
